@@ -184,6 +184,8 @@ def consistentEnd (verdicts : List Bool) : Bool :=
 /-- `equals('literal')` = `matches_regex('^' + re.escape(literal) + '$')` on `str(value)`:
     `$` also matches before one trailing newline -/
 def equalsStr (lit v : List Nat) : Bool := v == lit || v == lit ++ [10]
+/-- `all_equals('literal')` on a list of strings (after the `fix:` commit: every element is compared with the literal) -/
+def allEqualsStr (lit : List Nat) (vs : List (List Nat)) : Bool := vs.all (· == lit)
 /-- `matches_regex(re.escape(lit))`: `match` anchors at the start only -/
 def matchesLiteralPrefix (lit v : List Nat) : Bool := lit.isPrefixOf v
 
